@@ -1,4 +1,4 @@
-PROPS = ["CTV.Props.C10"]
+PROPS = ["CTV.Props.C10", "CTV.Props.C10Tie", "CTV.Model.DerTieSpec"]
 HARNESS = [dict(pkg="./asn1/", test="TestVerifC10", timeout=900)]
 RULE = ("generated target types (reflect.StructOf with asn1:\"...\" tags, nesting <= 4, every supported kind and field parameter) x byte strings "
         "(type-directed valid DER with seeded malformations, structure-preserving mutations, random); every case is decoded by the fork strictly, "
@@ -13,7 +13,7 @@ ALLOWED_DIFFERENCES = ["any-bool: interface{} target leaves a BOOLEAN nil and un
                        "the lax parameter itself; field names in error texts (errors are compared as a class)"]
 ASSUMPTIONS = ["the fixed list of allowed fork/upstream differences (counted as allowed-diff:* in the histogram, never failures): " + "; ".join(ALLOWED_DIFFERENCES),
                "64-bit int (lengths < 2^31 cannot overflow offset arithmetic)",
-               "no-panic and the allocation bound are harness oracles, not theorems; Canon has no interface{} targets (c-lines answer 'skip' there)"]
+               "no-panic is a harness oracle, not a theorem (the allocation bound is parse_total_size on the model and an oracle on the implementation); Canon has no interface{} targets (c-lines answer 'skip' there)"]
 
 def is_nontrivial(op, impl):
     return impl.startswith("ok ")
